@@ -73,16 +73,28 @@ example : Gen.Quota.hagenbach_bischoff_ceil 100 2 = 34 := by decide +kernel
 /-! ## 2. QuotaDistributor: whole quotas and the over-award policies -/
 
 /-- well-formed request: Python dicts have distinct keys; vote counts and previous gains are non-negative -/
-structure WF (votes : Votes) (prev : IMap) : Prop where
-  keys_nodup : (votes.map (·.1)).Nodup
-  votes_nonneg : ∀ p ∈ votes, 0 ≤ p.2
-  prev_nodup : (prev.map (·.1)).Nodup
-  prev_nonneg : ∀ c, 0 ≤ getI prev c 0
+def WF (votes : Votes) (prev : IMap) : Prop :=
+  (votes.map (·.1)).Nodup ∧ (∀ p ∈ votes, 0 ≤ p.2) ∧ (prev.map (·.1)).Nodup ∧ (∀ x ∈ prev, 0 ≤ x.2)
+
+instance (votes : Votes) (prev : IMap) : Decidable (WF votes prev) := by unfold WF; infer_instance
+
+theorem WF.keys_nodup {votes : Votes} {prev : IMap} (h : WF votes prev) : (votes.map (·.1)).Nodup := h.1
+theorem WF.votes_nonneg {votes : Votes} {prev : IMap} (h : WF votes prev) : ∀ p ∈ votes, 0 ≤ p.2 := h.2.1
+theorem WF.prev_nodup {votes : Votes} {prev : IMap} (h : WF votes prev) : (prev.map (·.1)).Nodup := h.2.2.1
+theorem WF.prev_nonneg {votes : Votes} {prev : IMap} (h : WF votes prev) : ∀ c, 0 ≤ getI prev c 0 := by
+  intro c
+  unfold getI
+  cases hf : prev.find? (fun p => p.1 = c) with
+  | none => exact le_refl _
+  | some x => exact h.2.2.2 x (List.mem_of_find?_eq_some hf)
 
 /-- no cap binds on the whole quotas: every party's whole quotas are within its cap (`max_seats`, by default
     the house size `n`, as the code has it at L236) or already covered by previous gains -/
 def NoCapBinds (q : Rat) (ae : Bool) (n : Nat) (prev maxS : IMap) (votes : Votes) : Prop :=
   ∀ p ∈ votes, wholeQ q ae p.2 ≤ getI maxS p.1 n ∨ wholeQ q ae p.2 ≤ getI prev p.1 0
+
+instance (q : Rat) (ae : Bool) (n : Nat) (prev maxS : IMap) (votes : Votes) :
+    Decidable (NoCapBinds q ae n prev maxS votes) := by unfold NoCapBinds; infer_instance
 
 /-- seats handed out so far, previous gains of all parties included (the code's `total_awarded`, L258) -/
 def totalAwarded (q : Rat) (ae : Bool) (prev : IMap) (votes : Votes) : Int :=
@@ -366,6 +378,129 @@ theorem lr_total_hare (ae : Bool) (pol : OnOver) (votes : Votes) (n : Nat) (hwf 
   refine ⟨_, lr_whole_then_remainders _ votes n [] [] hplain, ?_⟩
   exact lr_total_exact ⟨Gen.Quota.hare, ae, pol, true⟩ 0 hquota votes n hwf hV hn hnb hle _
     (lr_whole_then_remainders _ votes n [] [] hplain)
+
+/-- the counting argument behind the quota rule, for any quota under which the shares add up to `n` -/
+private theorem quota_rule_aux (q : Rat) (ae : Bool) (votes : Votes) (n : Nat) (hwf : WF votes [])
+    (hq : 0 < q) (hVq : (votes.map (·.2)).sum / q = (n : Rat))
+    (hsum : (votes.map (fun p => wholeQ q ae p.2)).sum ≤ (n : Int))
+    (p : Cand × Rat) (hp : p ∈ votes) (seats : Int)
+    (hseats : seats = wholeQ q ae p.2 + (if Slot.cand p.1 ∈ lrBest q ae n [] [] votes then 1 else 0)) :
+    ⌊p.2 / q⌋ ≤ seats ∧ seats ≤ ⌈p.2 / q⌉ := by
+  have h0 : sumI [] = 0 := rfl
+  -- the remainder list
+  have hrems : lrRems q ae [] [] votes = votes.map (fun p => (p.1, p.2 / q - (wholeQ q ae p.2 : Rat))) :=
+    lrRems_plain hq ae votes hwf.votes_nonneg
+  have hremvals : (lrRems q ae [] [] votes).map (·.2) = votes.map (fun p => p.2 / q - (wholeQ q ae p.2 : Rat)) := by
+    rw [hrems, List.map_map]; rfl
+  have hnn : ∀ e ∈ lrRems q ae [] [] votes, 0 ≤ e.2 := by
+    intro e he
+    rw [hrems] at he
+    obtain ⟨p', _, rfl⟩ := List.mem_map.mp he
+    exact (rem_bounds hq ae).1
+  have hnd : ((lrRems q ae [] [] votes).map (·.1)).Nodup :=
+    List.Nodup.sublist (keys_lrRems_sublist _ _ _ _ _) hwf.keys_nodup
+  have hpe : (p.1, p.2 / q - (wholeQ q ae p.2 : Rat)) ∈ lrRems q ae [] [] votes := by
+    rw [hrems]; exact List.mem_map.mpr ⟨p, hp, rfl⟩
+  -- r = Σ remainders
+  have hr : ((remSeats q ae n [] votes : Int) : Rat) = ((lrRems q ae [] [] votes).map (·.2)).sum := by
+    rw [hremvals, sum_rems, hVq]
+    unfold remSeats totalAwarded
+    rw [totalAwarded_plain_aux hq _ _ hwf.votes_nonneg, h0]
+    push_cast; ring
+  have hr0 : 0 ≤ remSeats q ae n [] votes := by
+    unfold remSeats totalAwarded
+    rw [totalAwarded_plain_aux hq _ _ hwf.votes_nonneg, h0]; omega
+  have hrnat : (((remSeats q ae n [] votes).toNat : Nat) : Rat) = ((lrRems q ae [] [] votes).map (·.2)).sum := by
+    rw [← hr]
+    have : (((remSeats q ae n [] votes).toNat : Nat) : Int) = remSeats q ae n [] votes := Int.toNat_of_nonneg hr0
+    exact_mod_cast congrArg (fun z : Int => (z : Rat)) this
+  have hfl := Int.floor_le (p.2 / q)
+  have hflt := Int.lt_floor_add_one (p.2 / q)
+  by_cases hedge : p.2 = q ∧ ae = false
+  · -- exactly one quota, accept_equal off: no whole quota, but the largest possible remainder
+    have hw : wholeQ q ae p.2 = 0 := by unfold wholeQ; rw [if_pos hedge]
+    have hx : p.2 / q = 1 := by rw [hedge.1, div_self (ne_of_gt hq)]
+    have hone : cntGe (lrRems q ae [] [] votes) 1 ≤ (remSeats q ae n [] votes).toNat := by
+      have := cntGe_one_le_sum _ hnn
+      rw [← hrnat] at this
+      exact_mod_cast this
+    have hel : Slot.cand p.1 ∈ lrBest q ae n [] [] votes := by
+      have := cntGe_le_elected (lrRems q ae [] [] votes) (remSeats q ae n [] votes).toNat
+        (p.1, p.2 / q - (wholeQ q ae p.2 : Rat)) hpe (by rw [hw, hx]; simpa using hone)
+      exact this
+    rw [if_pos hel, hw] at hseats
+    rw [hseats, hx]
+    simp
+  · have hw : wholeQ q ae p.2 = ⌊p.2 / q⌋ := by unfold wholeQ; rw [if_neg hedge]
+    rw [hw] at hseats
+    constructor
+    · rw [hseats]; split <;> omega
+    · by_cases hint : ((⌊p.2 / q⌋ : Int) : Rat) = p.2 / q
+      · -- an integral share: remainder 0, which never wins a seat
+        have hnot : Slot.cand p.1 ∉ lrBest q ae n [] [] votes := by
+          intro hel
+          have hzero : (0 : Rat) ∈ (lrRems q ae [] [] votes).map (·.2) := by
+            refine List.mem_map.mpr ⟨_, hpe, ?_⟩
+            simp only [hw]; linarith
+          have hub := sum_unit_le_pred ((lrRems q ae [] [] votes).map (·.2)) (by
+            intro x hx
+            rw [hremvals] at hx
+            obtain ⟨p', _, rfl⟩ := List.mem_map.mp hx
+            exact rem_bounds hq ae) hzero
+          rw [← hrnat, List.length_map] at hub
+          have hlen1 : 1 ≤ (lrRems q ae [] [] votes).length := List.length_pos_of_mem hpe
+          have hlt : (remSeats q ae n [] votes).toNat < (lrRems q ae [] [] votes).length := by
+            have : (((remSeats q ae n [] votes).toNat : Nat) : Rat) < ((lrRems q ae [] [] votes).length : Rat) := by
+              linarith
+            exact_mod_cast this
+          have hc := elected_cntGe_le _ hnd _ hlt _ hpe hel
+          simp only [hw] at hc
+          have hz : p.2 / q - ((⌊p.2 / q⌋ : Int) : Rat) = 0 := by linarith
+          rw [hz, cntGe_zero_eq_length _ hnn] at hc
+          omega
+        rw [if_neg hnot] at hseats
+        rw [hseats]
+        simp only [add_zero]
+        exact Int.floor_le_ceil _
+      · have hlt : ((⌊p.2 / q⌋ : Int) : Rat) < p.2 / q := lt_of_le_of_ne hfl hint
+        have hc : ⌊p.2 / q⌋ + 1 ≤ ⌈p.2 / q⌉ := by
+          have := Int.le_ceil (p.2 / q)
+          have : ((⌊p.2 / q⌋ : Int) : Rat) < ((⌈p.2 / q⌉ : Int) : Rat) := lt_of_lt_of_le hlt this
+          have : ⌊p.2 / q⌋ < ⌈p.2 / q⌉ := by exact_mod_cast this
+          omega
+        rw [hseats]; split <;> omega
+
+
+/-- **Hare quota rule.**  In a plain Hare election every party receives its exact share `v·n/V` rounded down or
+    rounded up — also on the `accept_equal = False` edge, where a party exactly on the quota loses its whole
+    quota but is then first in line for a remainder seat. -/
+theorem hare_quota_rule (ae : Bool) (pol : OnOver) (votes : Votes) (n : Nat) (hwf : WF votes [])
+    (hV : 0 < sumVals votes) (hn : 1 ≤ n)
+    (res : Sel) (hres : largestRemainder ⟨Gen.Quota.hare, ae, pol, true⟩ votes n [] [] = .ok res)
+    (p : Cand × Rat) (hp : p ∈ votes) :
+    ⌊p.2 * n / sumVals votes⌋ ≤ getK res (.cand p.1) 0 ∧ getK res (.cand p.1) 0 ≤ ⌈p.2 * n / sumVals votes⌉ := by
+  have hquota : ∀ (V : Rat) (m : Nat), Gen.Quota.hare V m = V / ((m : Rat) + (0 : Nat)) := by
+    intro V m; rw [quota_textbook_hare]; simp
+  obtain ⟨hq, hVq, hsum, hmem, _⟩ := exact_quota_facts (Gen.Quota.hare (sumVals votes) n) ae 0 votes n
+    (hquota _ _) hwf.votes_nonneg hV hn
+  simp only [Nat.cast_zero, add_zero] at hVq hsum hmem
+  have hnb : NoCapBinds (Gen.Quota.hare (sumVals votes) n) ae n [] [] votes := by
+    intro p hp; left; rw [getI_nil]; exact hmem p hp
+  have h0 : sumI [] = 0 := rfl
+  have hle : totalAwarded (Gen.Quota.hare (sumVals votes) n) ae [] votes ≤ n := by
+    unfold totalAwarded
+    rw [totalAwarded_plain_aux hq _ _ hwf.votes_nonneg]; omega
+  have hplain : Plain ⟨Gen.Quota.hare, ae, pol, true⟩ votes n [] := ⟨hwf, hq, hnb, hle⟩
+  have hseats := lr_floor_plus_01 _ votes n [] [] hplain res hres p hp
+  simp only at hseats
+  rw [wholeAward_nil hq ae p (hwf.votes_nonneg p hp)] at hseats
+  have hshare : p.2 * n / sumVals votes = p.2 / Gen.Quota.hare (sumVals votes) n := by
+    rw [quota_textbook_hare]
+    have hn0 : (n : Rat) ≠ 0 := by positivity
+    have hV0 : sumVals votes ≠ 0 := ne_of_gt hV
+    field_simp
+  rw [hshare]
+  exact quota_rule_aux _ ae votes n hwf hq hVq hsum p hp _ hseats
 
 /-- **Hagenbach-Bischoff**: the total is `n` whenever the whole-quota stage is plain -/
 theorem lr_total_hagenbach_bischoff (ae : Bool) (pol : OnOver) (votes : Votes) (n : Nat) (hwf : WF votes [])
